@@ -1178,7 +1178,8 @@ impl Property for C10 {
                     _ => r1 + 2,
                 };
                 let expired = n % 5 == 0;
-                if let Some(mut f) = super::misc::run_c10_resume(&steps, r1, r2, expired, &mut o) {
+                let lost_in_publish = (n % 3 == 1).then_some((n % 11) as u8);
+                if let Some(mut f) = super::misc::run_c10_resume(&steps, r1, r2, expired, lost_in_publish, &mut o) {
                     f.msg = format!("[history resumed after a connection loss] {}", f.msg);
                     o.fail = Some(f);
                     o.nontrivial = true;
